@@ -6,7 +6,7 @@
    over".  It holds initially (C06_init) and every episode re-establishes it
    (C06_episode), so the theorems apply after any number of episodes, i.e. to every way
    of cutting the stream into reads and would-block points. *)
-From Amq Require Import Lib.RsVal Gen.SrcFrameBuf Proofs.FrameBufSrc.
+From Amq Require Import Lib.RsVal Gen.SrcFrameBuf Proofs.FrameBufSrc Proofs.FrameBufEpisode.
 From Amq Require Import Lib.Base Gen.Consts Model.Wire Model.FrameBuf Spec.FrameBuf Proofs.FrameBuf.
 
 Theorem C06_init : forall accepts, Rel accepts [] new_fbuf [].
@@ -69,6 +69,12 @@ Qed.
 Theorem C06_read_from_source_is_model : forall (accepts : N -> bool) (handler : N -> bytes -> bool) (hv stream : val) (fuel : nat) (fb : fbuf) (script : list rd) (delivered : list (N * bytes)), chunks_nonempty script -> snd (fst (fst (read_from accepts handler fuel fb 0 script))) <> EpStuck -> gen_Inner_read_from ext_model (ext_st_model accepts handler) fuel (enc_self fb script delivered) stream hv = (let '(hs, r, fb', sc') := read_from accepts handler fuel fb 0 script in (enc_self fb' sc' (delivered ++ hs), enc_ep r)).
 Proof. exact read_from_source_is_model. Qed.
 
+(* C06 AS A THEOREM ABOUT THE TRANSLATED CODE: a call of the translated read_from (Gen/SrcFrameBuf.v) that ends in would-block - after
+   chunks of ANY sizes - has handed on exactly the complete frames of the bytes delivered so far, in order, each once, keeps exactly
+   the incomplete rest buffered and reports the byte count: the frames do not depend on how the stream was cut. *)
+Theorem C06_read_from_source_episode : forall (accepts : N -> bool) (fuel : nat) (fb : fbuf) (script : list rd) (D : bytes) (F : list bytes) (delivered : list (N * bytes)) (hv stream : val) (hs : list (N * bytes)) (n : N) (fb' : fbuf) (sc' : list rd), Rel accepts D fb F -> chunks_nonempty script -> read_from accepts okh fuel fb 0 script = (hs, EpOk n, fb', sc') -> gen_Inner_read_from ext_model (ext_st_model accepts okh) fuel (enc_self fb script delivered) stream hv = (enc_self fb' sc' (delivered ++ hs), VC "Ok" [VN n]) /\ (exists pre : list rd, all_chunks pre /\ script = pre ++ Block :: sc' /\ split_all (D ++ chunk_bytes pre) = (F ++ map snd hs, buf fb')).
+Proof. exact read_from_source_episode. Qed.
+
 (* non-vacuity: two heartbeat frames cut in the middle of the second one *)
 Example C06_example :
   let hb := [8; 0; 0; 0; 0; 0; 0; 206] in
@@ -107,6 +113,8 @@ Check C06_terminates : forall accepts fb nread script hs res fb' sc',
 
 Check C06_read_from_source_is_model : forall (accepts : N -> bool) (handler : N -> bytes -> bool) (hv stream : val) (fuel : nat) (fb : fbuf) (script : list rd) (delivered : list (N * bytes)), chunks_nonempty script -> snd (fst (fst (read_from accepts handler fuel fb 0 script))) <> EpStuck -> gen_Inner_read_from ext_model (ext_st_model accepts handler) fuel (enc_self fb script delivered) stream hv = (let '(hs, r, fb', sc') := read_from accepts handler fuel fb 0 script in (enc_self fb' sc' (delivered ++ hs), enc_ep r)).
 
+Check C06_read_from_source_episode : forall (accepts : N -> bool) (fuel : nat) (fb : fbuf) (script : list rd) (D : bytes) (F : list bytes) (delivered : list (N * bytes)) (hv stream : val) (hs : list (N * bytes)) (n : N) (fb' : fbuf) (sc' : list rd), Rel accepts D fb F -> chunks_nonempty script -> read_from accepts okh fuel fb 0 script = (hs, EpOk n, fb', sc') -> gen_Inner_read_from ext_model (ext_st_model accepts okh) fuel (enc_self fb script delivered) stream hv = (enc_self fb' sc' (delivered ++ hs), VC "Ok" [VN n]) /\ (exists pre : list rd, all_chunks pre /\ script = pre ++ Block :: sc' /\ split_all (D ++ chunk_bytes pre) = (F ++ map snd hs, buf fb')).
+
 Print Assumptions C06_init.
 Print Assumptions C06_episode.
 Print Assumptions C06_malformed.
@@ -115,3 +123,4 @@ Print Assumptions C06_terminates.
 Print Assumptions C06_example.
 Print Assumptions C06_read_from_source_is_model.
 Print Assumptions read_from_source_example.
+Print Assumptions C06_read_from_source_episode.
